@@ -175,8 +175,11 @@ def run_v_unit(name, tier='quick', seed=0, extra_args=None):
             l2 = s['line_start']
             if 0 < l2 <= len(mp):
                 e2 = mp[l2 - 1]
+                t0 = (s.get('text') or [{}])[0]
+                txt = t0.get('text', '')
+                hl = txt[max(0, t0.get('highlight_start', 1) - 1):max(0, t0.get('highlight_end', 1) - 1)] if s['line_start'] == s['line_end'] else txt.strip()
                 where.append(dict(gen_line=l2, kind=e2['kind'], file=e2['file'], line=e2['line'],
-                                  label=s.get('label'), text=(s.get('text') or [{}])[0].get('text', '').strip()[:160]))
+                                  label=s.get('label'), text=txt.strip()[:160], snippet=hl.strip()[:60], primary=bool(s.get('is_primary'))))
         if fn in canary_fns:
             canary_hit.add(fn)
             continue
@@ -184,9 +187,10 @@ def run_v_unit(name, tier='quick', seed=0, extra_args=None):
         kind = re.sub(r'[^a-z]+', '_', msg.lower()).strip('_')[:48]
         if not ob:
             # name by function + kind + real source location if any
-            srcw = next((w for w in where if w['kind'] == 'src'), None)
+            srcw = next((w for w in where if w['kind'] == 'src' and w.get('primary')), None) or next((w for w in where if w['kind'] == 'src'), None)
             loc = f"{srcw['file']}:{srcw['line']}" if srcw else f"{os.path.basename(ent.get('file') or '?')}:{ent.get('line')}"
-            ob = f"{name}.{fn or 'unit'}.{kind}@{loc}"
+            snip = f"[{srcw['snippet']}]" if srcw and srcw.get('snippet') else ''
+            ob = f"{name}.{fn or 'unit'}.{kind}@{loc}{snip}"
         rec = dict(obligation=ob, fn=fn, message=msg, where=where, rendered=(d.get('rendered') or '')[:3000])
         if RLIMIT_RX.search(msg):
             res['undecided'].append(f'{ob}: {msg}')
@@ -310,5 +314,7 @@ def match_finding(findings, prop, obligation):
         if f.get('status') != 'open' or f.get('property') != prop:
             continue
         if f.get('obligation') == obligation:
+            return f
+        if f.get('obligation_regex') and re.search(f['obligation_regex'], obligation):
             return f
     return None
